@@ -10,6 +10,11 @@ def main():
     ap.add_argument("--budget", type=float)
     args = ap.parse_args()
     seed = int(os.environ.get("VERIF_SEED", "0"))
+    import logging
+    for name in ("polyply", "vermouth"):
+        lg = logging.getLogger(name)
+        lg.addHandler(logging.NullHandler())
+        lg.propagate = False
     if args.pid == "setup":
         runner.check_repo_binding()
         import polyply, vermouth, networkx, numpy, scipy  # noqa
